@@ -1,6 +1,7 @@
 """Rules over context.rs / cursor.rs / control.rs / wait.rs: atomics table (E5), cursor and frontier
 tables (C15), one-shot execution (C14), notifications (C17), cancellation and the panic path (C05)."""
 import json
+import core
 from ru import *
 
 ORD_RANK = {'Relaxed': 0, 'Acquire': 1, 'Release': 1, 'AcqRel': 2, 'SeqCst': 3}
@@ -305,9 +306,152 @@ def U3_frontier(ctx):
 # ------------------------------------------------------------------------------------------------ C14
 
 
+def _started_users(facts):
+    users = set()
+    for b in facts.production():
+        for bl in b['blocks']:
+            if bl['cleanup']:
+                continue
+            for st in bl['stmts']:
+                if 'scheduler::Scheduler.started' in json.dumps(st):
+                    users.add(b['fn'])
+    return users
+
+
+def _cas_verdict(a):
+    t, o = a.d['term'], a.d['outcome']
+    neg = False
+    while t[0] == 'un' and t[1] == 'Not':
+        t, neg = t[2], not neg
+    if t[0] == 'call' and o in ('true', 'false'):
+        b = (o == 'true') != neg
+        if callee_matches(t[1], 'Result::is_err'):
+            return 'lost' if b else 'won'
+        if callee_matches(t[1], 'Result::is_ok'):
+            return 'won' if b else 'lost'
+        return None
+    if o in ('Continue', 'Ok'):
+        return 'won'
+    if o in ('Break', 'Err'):
+        return 'lost'
+    return None
+
+
+def O_guard_form(ctx):
+    """the same election stated on the entry points themselves, for a tree where the elected work is not a closure handed to
+    `run_once` but follows a call of an election function (`let guard = self.begin()?; work`): on every path of every public entry
+    point, anything that can reach results / state / thread spawning comes after the success edge of the one strong CAS false->true"""
+    facts = ctx.facts
+    users = _started_users(facts)
+    owners = set()
+    for u in users:
+        owners |= facts.owners(u)
+    ctx.ob('O3', 'Scheduler.started', 'who-touches-started', len(users) == 1, f'functions referencing Scheduler.started: {sorted(owners)}',
+           what='one election function; any other writer could re-arm the scheduler')
+    if len(users) != 1:
+        return
+    elect = next(iter(users))
+    ef = ctx.fn(elect)
+    touchers = set()
+    for b in facts.production():
+        txt = json.dumps(b['blocks'])
+        if 'scheduler::Scheduler.results' in txt or 'scheduler::Scheduler.state' in txt or 'std::thread::scope' in txt:
+            touchers.add(b['fn'])
+    work = set()
+    for b in facts.production():
+        if b['fn'] == elect:
+            continue
+        if b['fn'] in touchers or (facts.reach(b['fn']) & touchers):
+            work.add(b['fn'])
+    pubs = [b for b in facts.production() if b['kind'] == 'assoc' and b['reachable'] and 'scheduler::Scheduler<DB>' in b['self_ty'] and b['vis'] == 'Public']
+    ctx.count('O1.public-entry-points', len(pubs))
+    work -= {b['fn'] for b in pubs if not b['fn'].endswith('::take_result_and_state')}   # an entry point calling another entry point: that one is checked itself
+    bad, n_exec, n_rej, via = [], 0, 0, set()
+    msg_ok = False
+    for b in [facts.by[elect]] + pubs:
+        name = b['fn']
+        if name.endswith('::take_result_and_state'):
+            continue
+        fn = ctx.fn(b)
+        for p in feasible(fn.paths(budget=50000)):
+            cas = [e for e in p.events if e.kind == 'call' and 'std::sync::atomic' in e.d['callee'] and e.d['args'] and mentions_field(e.d['args'][0], 'Scheduler.started')]
+            ecall = [e for e in p.events if e.kind == 'call' and e.d['callee'] == elect]
+            wk = [e for e in p.events if e.kind == 'call' and e.d['callee'] in work and e.d['callee'] != elect]
+            if not cas and not ecall:
+                if wk:
+                    bad.append((f'{core.short_fn(name)} reaches {core.short_fn(wk[0].d["callee"])} without an election', p))
+                continue
+            via.add(name.split('::')[-1])
+            if cas:
+                if len(cas) != 1 or not callee_matches(cas[0].d['callee'], '::compare_exchange') or cas[0].d['args'][1:3] != (('const', 'false'), ('const', 'true')):
+                    bad.append(('started is not elected by one strong compare_exchange(false,true)', p))
+                    continue
+                dec = [a for a in p.events if a.kind == 'atom' and mentions(a.d['term'], cas[0].d['result'])]
+                first = idx_of(p, cas[0])
+            else:
+                # the election function was not inlined: its Ok / Err is the verdict
+                dec = [a for a in p.events if a.kind == 'atom' and mentions(a.d['term'], ecall[0].d['result'])]
+                first = idx_of(p, ecall[0])
+            won = [a for a in dec if _cas_verdict(a) == 'won']
+            lost = [a for a in dec if _cas_verdict(a) == 'lost']
+            if won and lost:
+                bad.append(('contradictory election decisions on one path', p))
+            if won:
+                n_exec += 1
+            elif lost:
+                n_rej += 1
+                ret = [e for e in p.events if e.kind == 'ret'][0].d['value']
+                if any(s_[0] == 'agg' and s_[1].endswith('GrevmError') for s_ in subterms(ret)) and any(s_[0] == 'agg' and s_[2] == 'Custom' for s_ in subterms(ret)):
+                    msg_ok = True
+                elif name != elect:
+                    pass
+            else:
+                bad.append((f'{core.short_fn(name)}: a path is neither elected nor rejected', p))
+            for e in wk:
+                i = idx_of(p, e)
+                if not won or not any(idx_of(p, a) < i for a in won) or first > i:
+                    bad.append((f'{core.short_fn(name)} runs {core.short_fn(e.d["callee"])} without having won the election', p))
+            if lost and not won:
+                others = [e for e in p.events if e.kind == 'call' and e.d.get('local') and e.d['callee'] != elect and not callee_matches(e.d['callee'], ('SchedulerContext::committed_idx',)) and not facts.is_new_fn(e.d['callee'])]
+                if others:
+                    bad.append((f'{core.short_fn(name)}: losing path calls ' + short(others[0].d['callee']), p))
+    ctx.ob('O2', ef, 'election-dominates-work', n_exec >= 2 and n_rej >= 2 and not bad, '; '.join(sorted(set(w for w, _ in bad))[:3]), site=ef.loc(ef.b['lo']),
+           what='whatever can reach outcomes / state / thread spawning runs only after the success edge of a strong CAS false→true on `started`; the losing edge returns the error before touching anything')
+    ctx.ob('O2', ef, 'losing-edge-returns-once-error', msg_ok, 'no losing path builds GrevmError{EVMError::Custom(..)}', site=ef.loc(ef.b['lo']))
+    ctx.ob('O1', 'scheduler::Scheduler', 'entry-points-pass-through-the-election', len(pubs) >= 4 and len(via - {elect.split('::')[-1]}) >= 2 and not bad,
+           f'public methods={sorted(b["fn"].split("::")[-1] for b in pubs)}; elected={sorted(via)}',
+           what='every public path to results/state mutation or to thread spawning passes the election first')
+    _O_rest(ctx)
+
+
+def _O_rest(ctx):
+    facts = ctx.facts
+    bf = ctx.method('scheduler::Scheduler<DB>', 'build')
+    init_ok = res_ok = False
+    for p in feasible(bf.paths()):
+        ret = [e for e in p.events if e.kind == 'ret'][0].d['value']
+        if ret[0] == 'agg' and ret[1].endswith('scheduler::Scheduler'):
+            fields = dict(zip(ret[4].split(','), ret[3]))
+            st = fields.get('started')
+            init_ok = st is not None and st[0] == 'call' and st[2] == (('const', 'false'),)
+            rs = fields.get('results')
+            res_ok = rs is not None and rs[0] == 'call' and callee_matches(rs[1], 'Mutex::new') and has_call(rs, ('Vec::new', '::from_elem', 'vec::from_elem')) or \
+                (rs is not None and 'Vec::new' in show(rs))
+    ctx.ob('O3', bf, 'started-initially-false', init_ok, '', site=bf.loc(bf.b['lo']))
+    ctx.ob('O5', bf, 'results-initially-empty', res_ok, '', site=bf.loc(bf.b['lo']),
+           what='before any execution take_result_and_state() returns no outcomes')
+    t = ctx.method('scheduler::Scheduler<DB>', 'take_result_and_state')
+    ty = t.lty.get(1, '')
+    ctx.ob('O4', t, 'take-consumes-self', ty.startswith('scheduler::Scheduler<') and not ty.startswith('&'), f'self type: {ty}', site=t.loc(t.b['lo']),
+           what='taking self by value makes it impossible to take results while an execution borrows the scheduler')
+
+
 def O_run_once(ctx):
     facts = ctx.facts
-    f = ctx.method('scheduler::Scheduler<DB>', 'run_once')
+    try:
+        f = ctx.method('scheduler::Scheduler<DB>', 'run_once')
+    except AnchorLost:
+        return O_guard_form(ctx)
     ps = feasible(f.paths())
     bad, n_exec, n_rej = [], 0, 0
     msg_inline = False
